@@ -86,7 +86,14 @@ def compare(core, ext, V, stats):
                 if a.get(k) != b.get(k):
                     # private nested properties are shown in the property column in IG Core and in the reference column in IG Extended
                     if (k + b"-Ref") in b or (k + b"-Ref") in a:
-                        continue
+                        # ... but every value IG Extended shows in the property column is in the IG Core cell as well
+                        lost = [x for x in b.get(k, b"").split(b",") if x.strip() and x not in a.get(k, b"")]
+                        if not lost:
+                            continue
+                        V.violation("core-ext:core-cell-lacks-private-value", case, observed={"row": a.get(SID), "column": k, "core": a.get(k), "extended": b.get(k), "lost": repr(lost[:3])},
+                                    what="a private property value shown by IG Extended is missing from the IG Core cell")
+                        bad = True
+                        break
                     V.violation("core-ext:non-reference-cell-differs", case, observed={"row": a.get(SID), "column": k, "core": a.get(k), "extended": b.get(k)},
                                 what="a non-reference cell of a top-level row differs between IG Core and IG Extended")
                     bad = True
@@ -111,6 +118,37 @@ def compare(core, ext, V, stats):
                             V.violation("core-ext:extended-reference-is-not-an-id", case, observed={"row": b.get(SID), "column": k, "cell": v}, what="IG Extended reference cell does not hold statement IDs")
                         elif not (ref in ext_ids or any(x.startswith(ref + b".") for x in ext_ids)):
                             V.violation("core-ext:extended-reference-without-rows", case, observed={"row": b.get(SID), "reference": ref}, what="IG Extended references a nested statement that has no row group")
+        # IG Core: private nested properties are written into the property cell of their value: every value of each of them
+        if j < len(tops):
+            st = tops[j][6][1]
+            for f, node in st:
+                if f in COMPLEX_FIELDS:
+                    continue
+                ccol = FIELD_SYMBOL[f].encode()
+                for lf in leaves(node):
+                    if not isinstance(lf[6], bytes) or not lf[6].strip():
+                        continue
+                    for pv in lf[7]:
+                        if isinstance(pv[6], tuple) and pv[6][0] == 'T' and pv[1]:
+                            texts = stmt_texts(pv[6][1], [])
+                            for a in rc:
+                                if adjust_py(lf[6], False) in a.get(ccol, b"") and len(leaves(node)) >= 1 and a.get(ccol, b"").count(b",") == 0:
+                                    cell = a.get(pv[1], b"")
+                                    stats["core_cells"] += 1
+                                    miss = [t for t in texts if t.strip() and adjust_py(t, False) not in cell]
+                                    if miss:
+                                        V.violation("core-ext:core-cell-lacks-private-nested-value", case, observed={"row": a.get(SID), "column": pv[1], "cell": cell[:300], "missing": repr(miss[:3])},
+                                                    what="IG Core property cell does not contain every value of a private nested property of the row's value")
+                                        bad = True
+                                        break
+                        if bad:
+                            break
+                    if bad:
+                        break
+                if bad:
+                    break
+        if bad:
+            continue
         # IG Core: the reference cell contains every value of each nested statement of the component
         if j < len(tops):
             st = tops[j][6][1]
